@@ -19,9 +19,13 @@ pred distinctWriters(ws) = (forall x in ws :: x != nil) && (forall a in 0..len(w
 contract wrappedReader.Read
   requires self != nil && self.reader != nil && distinctWriters(self.writer)
   ensures[C12] @count_in_range 0 <= n && n <= len(p)
+  // C13 "a body that breaks off part-way": the tee reader has no memory of its own - every call reads the source exactly
+  // once and a failed source read is reported as a failure of this call (never turned into a clean end of stream later)
+  ensures[C12,C13] @reads_the_source_exactly_once gSrcReads == old(gSrcReads) + 1
+  ensures[C13] @source_error_is_never_swallowed gSrcFailed ==> err != nil
   ensures[C12] @every_writer_gets_exactly_the_bytes_read (forall j in 0..len(self.writer) :: teed(self.writer[j], p, n))
         || (err != nil && exists j in 0..len(self.writer) :: (forall a in 0..j :: teed(self.writer[a], p, n)))
-  modifies elemsof(p), gOutLen, gOutData
+  modifies elemsof(p), gOutLen, gOutData, gSrcReads, gSrcFailed
   loop 1 invariant 0 <= n && n <= len(p)
   loop 1 invariant[C12] forall j in 0..idx1 :: teed(self.writer[j], p, n)
   loop 1 invariant[C12] forall j in idx1..len(self.writer) :: untouchedWriter(self.writer[j])
@@ -109,7 +113,7 @@ contract Scraper.ParseResponse
   ensures forall q : int :: gOutLen[q] >= old(gOutLen[q])
   ensures forall x : *StatisticsSeriesResult :: old(allocated(x)) ==> (x.Total >= old(x.Total) && x.ScrapedTotal >= old(x.ScrapedTotal))
   ensures s.gZipReader == old(s.gZipReader) && (s.gZipReader != nil ==> s.gZipReader.gInPool)
-  modifies gStreamOK, gOutLen, gOutData, StatisticsSeriesResult.*, MetricSamplesInfo.*, mapof(StatisticsSeriesResult.MetricsTotal), gKept, gMetricTotal, gMetricScraped, github.com/klauspost/compress/gzip.Reader.gInPool, gClock
+  modifies gStreamOK, gSrcReads, gSrcFailed, gOutLen, gOutData, StatisticsSeriesResult.*, MetricSamplesInfo.*, mapof(StatisticsSeriesResult.MetricsTotal), gKept, gMetricTotal, gMetricScraped, github.com/klauspost/compress/gzip.Reader.gInPool, gClock
 
 contract Scraper.WithRawWriter
   requires s != nil
